@@ -203,7 +203,11 @@ func checkC10(c HistCase) Verdict {
 			in := filepath.Join(asm.TmpDir(), "c10-in.nas")
 			os.WriteFile(in, []byte(src), 0o644)
 			r := asm.RunCLI(asm.TmpDir(), in, dst)
-			if r.Err != nil || r.Exit != 0 {
+			if r.Err != nil {
+				v.Skip = "the gosk binary did not finish (time-out or start failure): inconclusive"
+				return v
+			}
+			if r.Exit != 0 {
 				v.Fail = fmt.Sprintf("step %d: fresh process failed (exit %d, %v) on a program that assembled before", step, r.Exit, r.Err)
 				v.Sig = "C10|cli-exit"
 				return v
